@@ -84,7 +84,10 @@ class MaskReaction(Monitor):
         base = ad.base_action(rec.state, env, mask if b is None else b[0])
         rng = ctx.det_rng(rec.state, "c04fork")
         actions, idx, complete = ad.enumerate_actions(env, mask.shape, base, rng)
-        ns, nts = ctx.sys.fork(rec.jstate, actions)
+        try:
+            ns, nts = ctx.sys.fork(rec.jstate, actions)
+        except Exception as e:  # noqa: BLE001  (every action is inside the action spec: step must answer it)
+            ctx.fail(self.name, "forked_step_raised:" + type(e).__name__, f"t={rec.t}: vmap(step) over the action space raised {type(e).__name__}: {str(e)[:200]}")
         ctx.stats.probe("fork_enumerated_complete" if complete else "fork_sampled")
         judged = ad.judged(rec.state, env)
         import jax
